@@ -10,7 +10,6 @@ import (
 	"github.com/ontio/ontology/account"
 	"github.com/ontio/ontology/common"
 	"github.com/ontio/ontology/consensus/vbft"
-	"github.com/ontio/ontology/core/signature"
 	"github.com/ontio/ontology/core/types"
 	msgpack "github.com/ontio/ontology/p2pserver/message/msg_pack"
 
@@ -516,7 +515,7 @@ func classifyFork(net *world.VbftNet, h uint32, a, b common.Uint256) string {
 		}
 		if !trusted {
 			pk, ok := pubs[idx]
-			if !ok || len(sig) == 0 || signature.Verify(pk, hash[:], sig) != nil {
+			if !ok || len(sig) == 0 || !c16SigValid(pk, hash[:], sig) {
 				return
 			}
 		}
@@ -692,7 +691,7 @@ func checkCommitQuorum(c *simkit.Ctx, net *world.VbftNet, sigBase string) {
 			}
 			valid := func(idx uint32, sig []byte) bool {
 				pk, ok := pubs[idx]
-				return ok && len(sig) > 0 && signature.Verify(pk, cd.h[:], sig) == nil
+				return ok && len(sig) > 0 && c16SigValid(pk, cd.h[:], sig)
 			}
 			for _, e := range endorses {
 				if e.Proposer == proposer && valid(e.Endorser, e.Sig) {
